@@ -145,6 +145,16 @@ def units(tier, seed):
     from ..scale import big_population_worlds, high_dimension_worlds, long_local_search_worlds
 
     descs += big_population_worlds(tier, seed) + high_dimension_worlds(tier, seed) + long_local_search_worlds(tier, seed)[:1]
+    # DE with a scaling factor above 1 (donors overshoot by more than one box width: one mirror image is not enough), and boxes whose upper
+    # face is missed by one ulp when it is computed as lower + 1.0 * width, with local searches that end on faces and in corners
+    for k, eng in enumerate([("DE",), ("DE", "SEA"), ("SEA", "DE"), ("DE", "CMAf")]):
+        for sc in (1.5, 1.9):
+            descs.append(dict(engines=list(eng), gens=3, box=("B_asym", "B_3d", "B_ulp")[k % 3], obj=("lin_corner", "sphere_in")[k % 2], maximize=bool(k % 2), Mh=4, seed=s + k, de_scaling=sc,
+                              sprout={"kind": "simple", "L": 2}))
+    for k, eng in enumerate([("SEA", "LOC"), ("DE", "LOC"), ("LHS", "LOC"), ("SEA", "CMAf", "LOC")]):
+        for mx in (False, True):
+            descs.append(dict(engines=list(eng), gens=1, box="B_ulp", obj="lin_corner", maximize=mx, Mh=4, seed=s + k, sprout={"kind": "simple", "L": 2}, loc_maxiter=40,
+                              loc_method=(None, "Nelder-Mead")[k % 2]))
     us = [{"kind": "run", "descs": c} for c in chunks(descs, 40)]
     # a second optimisation in the same process on a SMALLER box inside the first one (zooming in), each pair in a brand-new
     # interpreter: with fresh objects throughout, and with the level-config objects kept and pointed at the new problem
